@@ -336,3 +336,21 @@ Check (C01_eval_refines_spec :
     NS.theories.LiveCheck.x_checked (NS.theories.LiveCheck.plan_ok3 p ss fs) = true ->
     NS.theories.LiveCheck.x_residual (NS.theories.LiveCheck.plan_ok3 p ss fs) = ([], []) ->
     run_impl (Some (ss, fs)) eps fuel p = (o, NS.proofs.ScopeProofs.ending_of e)).
+
+(* ================================================================== round 3: end-to-end composition
+   theories/Pipeline.v assembles lexer -> parser -> named tree -> static rules -> evaluator from SOURCE
+   BYTES (tied to the code by lib/props/pipeline.py on source text).  Statements as in
+   Properties/PIPELINE.v; restated by type so that this property's audit covers them. *)
+Require NS.Properties.PIPELINE.
+
+(* from source bytes: implementation model = documented semantics wherever the latter is comparable *)
+Theorem C01_impl_equals_spec_end_to_end :
+  ltac:(let t := type of NS.Properties.PIPELINE.PIPELINE_impl_equals_spec_end_to_end in exact t).
+Proof. exact NS.Properties.PIPELINE.PIPELINE_impl_equals_spec_end_to_end. Qed.
+Print Assumptions C01_impl_equals_spec_end_to_end.
+
+(* number literals the lexer can produce are read as correctly rounded decimals *)
+Theorem C01_number_literal_parses :
+  ltac:(let t := type of NS.Properties.PIPELINE.PIPELINE_number_literal_parses in exact t).
+Proof. exact NS.Properties.PIPELINE.PIPELINE_number_literal_parses. Qed.
+Print Assumptions C01_number_literal_parses.
